@@ -52,6 +52,7 @@ type Script struct {
 	Trailers  []Header
 	Delay     time.Duration // before the status line
 	Info      []int         // informational responses (e.g. 103) sent before the final status
+	InfoHdrs  []Header      // extra headers carried by every informational response
 	Gate      chan struct{} // when set: wait until it is closed before answering (or before the rest of the body, see GateAfter)
 	GateAfter int           // chunked framing: bytes of the body to send before waiting on Gate (0 = wait before the status line)
 	Upgrade   bool          // answer 101 and then echo until the peer closes
@@ -285,7 +286,11 @@ func (u *Upstream) handle(c net.Conn, connID int64) {
 		}
 		var b bytes.Buffer
 		for _, code := range sc.Info {
-			fmt.Fprintf(&b, "HTTP/1.1 %d Info\r\nLink: </style.css>; rel=preload\r\n\r\n", code)
+			fmt.Fprintf(&b, "HTTP/1.1 %d Info\r\nLink: </style.css>; rel=preload\r\n", code)
+			for _, h := range sc.InfoHdrs {
+				fmt.Fprintf(&b, "%s: %s\r\n", h.Name, h.Value)
+			}
+			b.WriteString("\r\n")
 		}
 		fmt.Fprintf(&b, "HTTP/1.1 %d Status\r\n", sc.Status)
 		for _, h := range sc.Headers {
